@@ -22,11 +22,11 @@ Definition spec_for (p : pclass) (outside : bool) : hspec :=
   let h := handle_spec p in
   if outside then HSpec false (io_logs h) (io_msg h) (nf_steps h) else h.
 
-(* (((protocol family, outside-try), (actions, ((k, n), class))))  — writes k..k+n-1 fail, n = None: for good,
+(* (((protocol family, outside-try), ((actions during getProtocol, actions after), ((k, n), class))))  — writes k..k+n-1 fail, n = None: for good,
     (escaped, (records after the fault: (class, has client address), descriptors left open))) *)
-Definition chk_fault (x : ((pclass * bool) * (list action * ((nat * option nat) * ioclass))) * (bool * (list (logcls * bool) * nat))) : bool :=
-  let '(((p, outside), (acts, ((k, n), c))), (escaped, (recs, leaked))) := x in
-  let '(o, s) := server_handle (window k n) c server_spec (spec_for p outside) acts in
+Definition chk_fault (x : ((pclass * bool) * ((list action * list action) * ((nat * option nat) * ioclass))) * (bool * (list (logcls * bool) * nat))) : bool :=
+  let '(((p, outside), ((pre, acts), ((k, n), c))), (escaped, (recs, leaked))) := x in
+  let '(o, s) := connection (window k n) c server_spec (spec_for p outside) pre acts in
   Bool.eqb (match o with Contained => false | Escaped _ => true end) escaped &&
   list_eqb rec_eqb (map (fun e => (e_cls e, e_addr e)) (after_fault s)) recs &&
   Nat.eqb (depth s) leaked.
